@@ -12,7 +12,7 @@
    with no hypothesis of distinctness: the distinctness nextCounter needs is the invariant itself.  Exempt from
    uniqueness are exactly: the reserved range, the undefined ID, silent track UIDs, and track-UID values that do not
    fit the 32-bit field (the model's numbers are unbounded; the property quantifies over histories in which fewer
-   values are in use than the field holds).  The one guard on a history [run_ok]: an ID passed to set(Id) has the
+   values are in use than the field holds).  The one guard on a history [shaped_run]: an ID passed to set(Id) has the
    shape its C++ type enforces, and value 0 of a pack/channel/stream-format ID belongs to the all-zero ID only.
    The two theorems that keep the suffix _partial are stated for an arbitrary state under [distinct_above];
    C05_distinctness_holds_in_reached_states discharges that hypothesis in every reached state.
@@ -84,7 +84,7 @@ Print Assumptions C05_every_call_keeps_ids_unique.
 
 (* every history from the empty state: two different members of one list of one document carry different IDs,
    unless the ID is exempt *)
-Theorem C05_ids_unique_in_every_history : forall ops s', run_ok gen_plans ops empty_state ->
+Theorem C05_ids_unique_in_every_history : forall ops s', shaped_run gen_plans ops empty_state ->
   run_succ gen_plans ops empty_state = Some s' ->
   forall d k h1 h2 e1 e2, In h1 (listed s' d k) -> In h2 (listed s' d k) -> h1 <> h2 ->
     get_elem s' h1 = Some e1 -> get_elem s' h2 = Some e2 -> exempt k (eid e1) = false -> eid e1 <> eid e2.
@@ -105,7 +105,7 @@ Proof. exact exempt_meaning. Qed.
 Print Assumptions C05_exempt_meaning.
 
 (* in every reached state lookup(id) of an ID that is not exempt returns exactly the member that carries it *)
-Theorem C05_lookup_returns_the_carrier : forall ops s', run_ok gen_plans ops empty_state ->
+Theorem C05_lookup_returns_the_carrier : forall ops s', shaped_run gen_plans ops empty_state ->
   run_succ gen_plans ops empty_state = Some s' ->
   forall d x k i h e, get_doc s' d = Some x -> In h (members x k) -> get_elem s' h = Some e -> eid e = i ->
     exempt k i = false -> lookup d k i s' = (s', inl (Some h)).
@@ -119,7 +119,7 @@ Print Assumptions C05_lookup_returns_the_carrier.
 
 (* in every reached state the distinctness hypothesis of the two _partial theorems above holds for an element that
    receives a non-reserved ID (for track UIDs: while every listed UID fits the field) *)
-Theorem C05_distinctness_holds_in_reached_states : forall ops s', run_ok gen_plans ops empty_state ->
+Theorem C05_distinctness_holds_in_reached_states : forall ops s', shaped_run gen_plans ops empty_state ->
   run_succ gen_plans ops empty_state = Some s' ->
   forall d x e ni, get_doc s' d = Some x -> okid (ekind e) (eid e) = true -> is_reserved (ekind e) (eid e) = false ->
     new_id_for s' x e = Some ni -> is_reserved (ekind e) ni = false ->
@@ -141,7 +141,7 @@ Example C05_history_exists :
               OSetId 7 (mkId 0 9 0); OSetId 8 (mkId 0 9 0);
               OAdd 1 2; OAdd 1 3; OAdd 1 4; OAdd 1 5; OAdd 1 6; OAdd 1 7; OAdd 1 8;
               ORemove 1 2; OSetId 2 (mkId 0 4201 0); OAdd 1 2] in
-  run_ok_b gen_plans ops empty_state = true /\
+  shaped_run_b gen_plans ops empty_state = true /\
   match run_succ gen_plans ops empty_state with
   | Some s => map (fun h => option_map (fun e => ival (eid e)) (get_elem s h)) [2; 3; 4; 5; 6; 7; 8]%positive
               = [Some 4202; Some 4201; Some 4097; Some 4097; Some 4098; Some 9; Some 10]
